@@ -1,5 +1,5 @@
 # C16 - Serialization decoders recover exactly the value that was encoded
-import os, json, copy, struct, collections
+import os, json, copy, struct, collections, time
 import vlib
 from vlib import Inconclusive
 
@@ -18,7 +18,8 @@ META = dict(
     technique='TLA+ relational encoder specs + TLC GEN/SIM case emission + real-fq replay + TLC trace validation (TraceWire) with binding demo',
 )
 
-BIN_FORMATS = ['msgpack', 'cbor', 'bencode', 'bson']
+BIN_FORMATS = ['msgpack', 'cbor', 'bencode', 'bson', 'asn1_ber']
+SIM_FORMATS = ['msgpack', 'cbor', 'bencode', 'bson']     # WireSim has no BER constructors
 
 
 # ----------------------------------------------------------------------------- helpers
@@ -55,6 +56,16 @@ def has_type(v, t):
         elif isinstance(x, dict) and has_type(x, t):
             return True
     return False
+
+
+def has_empty(v):
+    """value has an empty string / byte string / sequence / set / tagged member (BER: a zero-length TLV other than NULL)"""
+    if not isinstance(v, dict):
+        return False
+    for k in ('s', 'x', 'a'):
+        if k in v and isinstance(v[k], list) and len(v[k]) == 0:
+            return True
+    return any(has_empty(x) for x in (v.get('a') or []) if isinstance(x, dict))
 
 
 def cbor_features(b):
@@ -116,6 +127,8 @@ def signature(ev, case, why):
             return 'cbor.%s.%s' % (why, '+'.join(sorted(feats)))
     if f == 'msgpack' and ev['val'].get('t') == 'ext' and case['bytes'][0] in (0xc8, 0xc9):
         return 'msgpack.%s.%s' % (why, 'ext16' if case['bytes'][0] == 0xc8 else 'ext32')
+    if f == 'asn1_ber' and has_empty(ev['val']):
+        return 'asn1_ber.%s.zero_length' % why
     if f == 'csv' and ev['kind'] == 'reject':
         return 'csv.%s.ragged_rows' % why
     b0 = ''
@@ -162,7 +175,7 @@ def run(ctx):
                        'point listed by the spec, the encoding plus each trailing string; distinct non-trivial = distinct (format, bytes) '
                        'whose value is a container, a multi-byte scalar encoding (>= 2 bytes) or a text document')
     ctx.assumptions += [
-        'encodings come from the TLA+ relations Enc (written from the msgpack spec, RFC 8949, BEP 3, bsonspec 1.1), not from a Go encoder',
+        'encodings come from the TLA+ relations Enc (written from the msgpack spec, RFC 8949, BEP 3, bsonspec 1.1, X.690), not from a Go encoder',
         'text formats: Go encoding/json, encoding/xml, encoding/csv are the independent encoders (harness/c16/text.go); the expected xml value '
         'follows the mapping documented in format/xml/xml.md; yaml/toml: round trip through fq\'s own to_yaml/to_toml only',
         'decode is invoked as _decode(F; {progress:null}+options), which is what decode(F) / `fq -d F` expands to (options computed once per '
@@ -195,7 +208,7 @@ def run(ctx):
         cases += g.printed
 
     # ---- 2. SIM: deeper values composed with the same constructors; composition checked against Enc (bounded, exhaustive)
-    for f in formats:
+    for f in [f for f in formats if f in SIM_FORMATS]:
         cfg = ('SPECIFICATION Spec\nCONSTANTS Format = "%s"\n MaxDepth = %d\n Chunks = 0\n Bounded = TRUE\nINVARIANT StepInEnc\nCHECK_DEADLOCK FALSE\n'
                % (f, 1 if f in ('msgpack', 'cbor') else 2))
         m = ctx.tlc('WireSim', 'simmc_%s.cfg' % f, cfg_text=cfg, timeout=900, workers=4)
@@ -211,7 +224,9 @@ def run(ctx):
 
     # ---- 3. replay on real fq (in-process interpreter, worker goroutines)
     ev_bin = os.path.join(ctx.build, 'events_bin.ndjson')
+    t0 = time.time()
     r = ctx.run([binp, 'replay', cpath, ev_bin], check=True, timeout=3000)
+    vlib.log('replay %d cases: %s in %.1fs' % (len(cases), r.stdout.strip(), time.time() - t0))
     ev_txt = os.path.join(ctx.build, 'events_text.ndjson')
     r2 = ctx.run([binp, 'text', str((1500 if thorough else 240) if do_text else 0), ev_txt], check=True, timeout=1500)
     events = vlib.read_ndjson(ev_bin)
@@ -225,6 +240,7 @@ def run(ctx):
     vlib.write_ndjson(allp, allev)
 
     # ---- 4. TV: TLC judges every event against Repr / truncation / trailing requirements
+    vlib.log('events read and merged at +%.1fs' % (time.time() - t0))
     rej, _, _ = ctx.tv('TraceWire', 'TraceWire.cfg', allp, name='tv_wire', timeout=2400)
     rej_by_line = {}
     for line, why in rej:
@@ -262,7 +278,7 @@ def run(ctx):
             per_format[f] = stats[f]
     ctx.cov['per_format'] = per_format
     ctx.cov['formats_covered'] = list(per_format.keys())
-    ctx.cov['formats_not_covered'] = ['asn1_ber (Wire_ber.tla not written)']
+    ctx.cov['formats_not_covered'] = ['asn1_ber REAL, BIT STRING, time types, ENUMERATED (no JSON-like counterpart defined by torepr)', 'cbor bignum tags 2/3 and simple values other than false/true/null/undefined', 'msgpack timestamp ext (-1) semantics']
     ctx.cov['evaluations'] += decodes
     ctx.cov['traces_validated_against_impl'] += len(allev)
     ctx.cov['distinct_nontrivial'] += len(distinct)
@@ -277,6 +293,7 @@ def run(ctx):
         t = tevents[len(tevents) // 2]
         ctx.sample(dict(format=t['f'], document=t.get('src', '')[:120], value=t['val'], observed=t['got']))
 
+    vlib.log('classified %d rejected events at +%.1fs' % (len(rej_by_line), time.time() - t0))
     # ---- 5. binding demonstration: damage recorded observations, TLC must reject exactly those lines
     if not events:
         return
